@@ -481,3 +481,26 @@ impl Hasher for SimHasher {
 
 pub type Map = flurry::HashMap<Key, Val, SimBuild>;
 pub type Set = flurry::HashSet<Key, SimBuild>;
+
+/* ------------------------------ serde (C19) ------------------------------ */
+
+impl serde::Serialize for Key {
+    fn serialize<S: serde::Serializer>(&self, s: S) -> Result<S::Ok, S::Error> {
+        s.serialize_u32(self.k)
+    }
+}
+impl<'de> serde::Deserialize<'de> for Key {
+    fn deserialize<D: serde::Deserializer<'de>>(d: D) -> Result<Key, D::Error> {
+        u32::deserialize(d).map(Key::new)
+    }
+}
+impl serde::Serialize for Val {
+    fn serialize<S: serde::Serializer>(&self, s: S) -> Result<S::Ok, S::Error> {
+        s.serialize_u32(self.id)
+    }
+}
+impl<'de> serde::Deserialize<'de> for Val {
+    fn deserialize<D: serde::Deserializer<'de>>(d: D) -> Result<Val, D::Error> {
+        u32::deserialize(d).map(Val::new)
+    }
+}
